@@ -174,3 +174,16 @@ func derefCell(v Value) Value {
 	}
 	return v
 }
+
+func init() {
+	// httpp.Server.Initialize/Close: listening is the kernel's; the router is what the harness asks
+	reg("(*"+modPathConst+"/internal/protocols/httpp.Server).Initialize", func(m *Machine, fr *frame, a []Value) Value { return Iface{} })
+	reg("(*"+modPathConst+"/internal/protocols/httpp.Server).Close", noop)
+}
+
+func init() {
+	// gin names handler functions for its route listing and debug output
+	reg("(reflect.Value).Pointer", func(m *Machine, fr *frame, a []Value) Value { return BV(64, 0x1000) })
+	reg("runtime.FuncForPC", func(m *Machine, fr *frame, a []Value) Value { return (*Value)(nil) })
+	reg("(*runtime.Func).Name", func(m *Machine, fr *frame, a []Value) Value { return MkStr("") })
+}
